@@ -97,3 +97,33 @@ pub unsafe extern "C" fn getenv(name: *const c_char) -> *mut c_char {
         VALUES[choice].as_ptr() as *mut c_char
     }
 }
+
+/// Self-test: does std's `env::var` reach this seam, and does it answer from the plan only
+/// inside a guarded call on a simulated thread?
+pub fn selftest() -> bool {
+    let key = "SIM_ENVSEAM_SELFTEST_KEY_3";
+    crate::clock::set_sim_thread(true);
+    let before = READS.load(Ordering::Relaxed);
+    // find a plan under which this key gets a non-empty value
+    let mut inside = None;
+    for plan in 1..64u64 {
+        set_plan(plan);
+        crate::hook::begin_call(0);
+        inside = std::env::var(key).ok();
+        crate::hook::end_call();
+        if inside.is_some() {
+            break;
+        }
+    }
+    set_plan(0);
+    crate::clock::set_sim_thread(false);
+    let outside = std::env::var(key).ok();
+    let reads = READS.load(Ordering::Relaxed) - before;
+    // do not let the self-test show up in a run's counters
+    READS.store(before, Ordering::Relaxed);
+    PERTURBED.store(0, Ordering::Relaxed);
+    if let Ok(mut k) = keys().lock() {
+        k.retain(|x| x != key);
+    }
+    inside.is_some() && outside.is_none() && reads >= 1
+}
